@@ -806,7 +806,7 @@ func (f *lvalFacts) safe(key string) (bool, string) {
 	}
 	// internals of a never-sealed container (an array's dimension list and storage node)
 	for k := range f.typeNotSeal {
-		if strings.HasPrefix(key, k+".Cells.[]") {
+		if strings.HasPrefix(key, k+".Cells.[") {
 			return true, "internal node of a value whose type the parser cannot produce (never sealed)"
 		}
 	}
